@@ -33,7 +33,9 @@ impl Api for SD {
         for d in sched {
             let cm = if *d { it.next_back() } else { it.next() };
             let off = Val::N;
-            steps.push(c("st", vec![opt(cm, |x| comp(&x)), b(pbytes(it.as_path())), off]));
+            let rp = it.as_path();
+            let st = c("t", vec![Val::Bool(rp.has_root()), Val::Bool(rp.is_absolute()), b(pbytes(rp)), Val::N]);
+            steps.push(c("st", vec![opt(cm, |x| comp(&x)), b(pbytes(it.as_path())), off, st]));
         }
         Val::L(steps)
     }
